@@ -506,8 +506,6 @@ def check_case(case):
                                                            f"restored: {bsig.state!r}")
             elif _bits(st_now) != bits_before[n]:
                 bad("restore:value_changed:array", f"input {n}: before {x_before[n]!r}, after {st_now!r}")
-        elif isinstance(x_before[n], np.ndarray) and st_now is not x_before[n] and n in B["sources"]:
-            bad("restore:array_object_replaced", f"input {n}: state is a different object after the call")
         elif _bits(st_now) != bits_before[n]:
             bad(f"restore:value_changed:{'array' if isinstance(x_before[n], np.ndarray) else 'scalar'}",
                 f"input {n}: before {x_before[n]!r}, after {st_now!r}")
